@@ -524,6 +524,9 @@ VERSION = "v{ver:03d}"
 C18_IMPORTS = {"ma": "import mb", "mb": "", "mc": ""}
 C18_EXTRA = {"ma": "", "mb": "", "mc": "\n\ndef load():\n    import ma\n\n    return ma\n"}
 C18_ALL = ["ma", "mb", "mc"]
+C18_TC = "c18tc"  # a typechecker module living NEXT TO the application, which imports an application module
+C18_TC_SRC = "import mb\nfrom vf.fixtures import spyck\n\ntc = spyck._make('C')\n"
+C18_PURGE = C18_ALL + [C18_TC]
 
 
 def c18_source(m, ver):
@@ -533,16 +536,27 @@ def c18_source(m, ver):
 def _hash_names():
     from .fixtures import spyck
 
+    spyck.PATH.setdefault("C", C18_TC + ".tc")
     return {
         hashlib.md5(spyck.PATH["A"].encode()).hexdigest(): "A",
         hashlib.md5(spyck.PATH["B"].encode()).hexdigest(): "B",
+        hashlib.md5(spyck.PATH["C"].encode()).hexdigest(): "C",
         "0": "n",
     }
 
 
-def c18_load_plan(order, modules):
+def c18_load_plan(order, modules, ck=None, hooked=()):
     """How each module gets loaded by a run with this import order:
-    {m: 'direct' | 'nested:ma' | 'lazy:mc'} (forest semantics)."""
+    {m: 'direct' | 'nested:ma' | 'lazy:mc'} (forest semantics).  With the application-local
+    typechecker C, decorating the first hooked function imports the typechecker module, which
+    imports mb."""
+    plan = _c18_load_plan(order, modules)
+    if ck == "C" and any(m in hooked for m in plan) and "mb" not in plan:
+        plan["mb"] = "nested:" + C18_TC
+    return plan
+
+
+def _c18_load_plan(order, modules):
     plan = {}
     for x in order:
         if x not in plan:
@@ -575,6 +589,8 @@ class CacheWorld:
         sys.path.insert(0, self.root)
         with open(os.path.join(self.root, C18_BROKEN + ".py"), "w") as fh:
             fh.write("def broken(:\n    pass\n")
+        with open(os.path.join(self.root, C18_TC + ".py"), "w") as fh:
+            fh.write(C18_TC_SRC)
         self.restore(self.initial())
 
     def close(self):
@@ -684,7 +700,7 @@ class CacheWorld:
 
     def listing(self, snap=None):
         snap = snap or self.snapshot()
-        return sorted(self.classify(n, d) for n, d in snap["pyc"].items())
+        return sorted(self.classify(n, d) for n, d in snap["pyc"].items() if not n.startswith(C18_TC + "."))
 
     def key(self, snap=None):
         """Canonical state: per cache file its module, the tag in its NAME, whether
@@ -701,7 +717,7 @@ class CacheWorld:
         from .fixtures import spyck
 
         for k in list(sys.modules):
-            if k in C18_ALL:
+            if k in C18_PURGE:
                 del sys.modules[k]
         restore_cache_from_source()
         remove_hooks()
@@ -746,6 +762,7 @@ def c18_do_run(hooked, ck, order, modules, cheap_probe=False, write=True, disabl
 
     outcome = "ok"
     mgr = None
+    spyck.PATH.setdefault("C", C18_TC + ".tc")
     if sys.dont_write_bytecode is not True:
         raise common.HarnessError("bytecode writing was already on before the run")
     before = set(sys.modules)
@@ -779,7 +796,7 @@ def c18_do_run(hooked, ck, order, modules, cheap_probe=False, write=True, disabl
         sys.dont_write_bytecode = True
         if disabled:
             jaxtyping.config.update("jaxtyping_disable", False)
-    late = sorted(k for k in set(sys.modules) - before if k not in C18_ALL)
+    late = sorted(k for k in set(sys.modules) - before if k not in C18_PURGE)
     loaded = {}
     for m in modules:
         mod = sys.modules.get(m)
